@@ -1135,6 +1135,9 @@ where
             }
         };
 
+        // the path `mtime` was read from
+        let stat_path = resolved_compiler_path.clone();
+
         // canonicalize the path to follow symlinks
         // don't canonicalize if the file name differs so it works with clang's multicall
         let resolved_compiler_path = match resolved_compiler_path.canonicalize() {
@@ -1226,8 +1229,20 @@ where
                 // TODO add some safety checks in case a proxy exists, that the initial `path` is not
                 // TODO the same as the resolved compiler binary
 
+                // The executable may have been replaced while it was being probed and hashed:
+                // what was detected is then not the file `mtime` was read from. Only remember
+                // the result if that file still has the modification time it had before the
+                // detection started; otherwise the next request detects again.
+                let unchanged = metadata(&stat_path)
+                    .map(|attr| FileTime::from_last_modification_time(&attr) == mtime)
+                    .unwrap_or(false);
+
                 // cache
-                let map_info = CompilerCacheEntry::new(c.clone(), mtime, dist_info);
+                let map_info = if unchanged {
+                    Some(CompilerCacheEntry::new(c.clone(), mtime, dist_info))
+                } else {
+                    None
+                };
                 trace!(
                     "Inserting POSSIBLY PROXIED cache map info for {:?}",
                     &resolved_compiler_path
@@ -1235,7 +1250,7 @@ where
                 me.compilers
                     .write()
                     .await
-                    .insert(compilers_key, Some(map_info));
+                    .insert(compilers_key, map_info);
 
                 // drop the proxy information, response is compiler only
                 Ok(c)
